@@ -437,8 +437,10 @@ func TestSignatureStrings(t *testing.T) {
 			if total > 75 {
 				total = 75
 			}
-			kind := rapid.SampledFrom([]string{"swap", "duplicate", "padding", "count+1", "count-1", "count-any", "random-position-byte", "z-byte"}).Draw(rt, "edit")
+			kind := rapid.SampledFrom([]string{"swap", "duplicate", "padding", "count+1", "count-1", "count-any", "random-position-byte", "z-byte", "count-chain"}).Draw(rt, "edit")
 			switch kind {
+			case "count-chain":
+				o = pu.HintChain(o, rapid.IntRange(0, 7).Draw(rt, "row"), byte(rapid.IntRange(76, 255).Draw(rt, "v")), rapid.Uint64().Draw(rt, "chain"))
 			case "swap":
 				if total >= 2 {
 					a := rapid.IntRange(0, total-2).Draw(rt, "a")
